@@ -262,7 +262,25 @@ def judge_reader(line, out):
             if math.isnan(f):
                 exp = "OK nan %d" % i
         elif isinstance(v, tuple) and v[0] in ("f32", "f64"):
-            return "UNKNOWN", "width conversion (judged by the model only)"
+            # the other float width on the wire (seeded change S27: a narrowing helper that rejects zero, negative and
+            # denormal doubles): widening is exact; narrowing of a finite double within the float range is the nearest
+            # float, beyond it the overflow policy decides; infinities / NaN are judged by the model only
+            import math, struct
+            if v[0] == "f32":
+                f = struct.unpack(">f", v[1].to_bytes(4, "big"))[0]
+                if math.isnan(f):
+                    exp = "OK nan %d" % i
+                else:
+                    exp = "OK %x %d" % (int.from_bytes(struct.pack(">d", f), "big"), i)
+            else:
+                d = struct.unpack(">d", v[1].to_bytes(8, "big"))[0]
+                if math.isnan(d) or math.isinf(d):
+                    return "UNKNOWN", "non-finite width conversion (judged by the model only)"
+                FLT_MAX = struct.unpack(">f", bytes.fromhex("7f7fffff"))[0]
+                if abs(d) <= FLT_MAX:
+                    exp = "OK %x %d" % (int.from_bytes(struct.pack(">f", d), "big"), i)
+                else:
+                    exp = "ERR O" if pol[1] == "T" else "NOT %d" % i
         else:
             exp = "NOT %d" % i if v is None else mism
     elif op == "ts":
